@@ -216,6 +216,8 @@ pub trait Sampler: Send + Sync {
     fn image(&self) -> Tree;
     fn clone_box(&self) -> Box<dyn Sampler>;
     fn to_json(&self) -> Result<String, String>;
+    fn to_json_pretty(&self) -> Result<String, String>;
+    fn to_json_value(&self) -> Result<serde_json::Value, String>;
 }
 
 macro_rules! call_sample {
@@ -318,6 +320,12 @@ impl<const D: usize> Sampler for SampleGenerator<D> {
     fn to_json(&self) -> Result<String, String> {
         serde_json::to_string(self).map_err(|e| e.to_string())
     }
+    fn to_json_pretty(&self) -> Result<String, String> {
+        serde_json::to_string_pretty(self).map_err(|e| e.to_string())
+    }
+    fn to_json_value(&self) -> Result<serde_json::Value, String> {
+        serde_json::to_value(self).map_err(|e| e.to_string())
+    }
 }
 
 macro_rules! by_d {
@@ -377,6 +385,20 @@ pub fn restore_json(d: usize, s: &str) -> Result<Box<dyn Sampler>, String> {
     let r = catch_unwind(AssertUnwindSafe(|| {
         by_d!(d, DD => {
             serde_json::from_str::<SampleGenerator<DD>>(s)
+                .map(|s| Box::new(s) as Box<dyn Sampler>)
+                .map_err(|e| e.to_string())
+        })
+    }));
+    match r {
+        Ok(x) => x,
+        Err(_) => Err("panic during deserialisation".into()),
+    }
+}
+
+pub fn restore_json_value(d: usize, v: &serde_json::Value) -> Result<Box<dyn Sampler>, String> {
+    let r = catch_unwind(AssertUnwindSafe(|| {
+        by_d!(d, DD => {
+            serde_json::from_value::<SampleGenerator<DD>>(v.clone())
                 .map(|s| Box::new(s) as Box<dyn Sampler>)
                 .map_err(|e| e.to_string())
         })
